@@ -5,7 +5,7 @@ EXTENDS Dir
 CONSTANTS NameSet, MaxDirs, TotalBlocks, MaxDepth
 VARIABLE s
 Init0 == [ent |-> (Root :> <<>>), ty |-> (Root :> FTDIR), links |-> (Root :> 2), dd |-> (Root :> Root), ea |-> (Root :> 0),
-          blk |-> (Root :> 1), fb |-> TotalBlocks - 1, leak |-> 0, skew |-> (Root :> 0), taint |-> {}, sat |-> {}]
+          blk |-> (Root :> 1), fb |-> TotalBlocks - 1, leak |-> 0, zomb |-> {}, skew |-> (Root :> 0), taint |-> {}, sat |-> {}]
 Init == s = Init0
 Dirs(x) == DOMAIN x.ent
 O(op, d, n, i, v, sz, ex) == [op |-> op, d |-> d, n |-> n, i |-> i, v |-> v, sz |-> sz, exp |-> ex, fe |-> 1]
@@ -29,7 +29,7 @@ InvNoFreeReferenced == NoFreeReferenced(s)
 InvBalancedIsConsistent == BalancedIsConsistent(s)
 InvConservation == s.fb + SumBlk(s) + s.leak = TotalBlocks
 \* removed objects release their blocks
-InvNoLeak == s.leak = 0
+InvNoLeak == s.leak = 0 /\ s.zomb = {}
 \* the converse direction of "links = refs exactly when balanced": a consistent state has no skew
 InvConsistentIsBalanced == Consistent(s) => \A i \in Alloc(s) : s.skew[i] = 0 \/ Saturated(s, i)
 =============================================================================
